@@ -21,6 +21,7 @@ import (
 	"sync"
 	"sync/atomic"
 	"syscall"
+	"time"
 	"unsafe"
 
 	"github.com/reeflective/readline"
@@ -116,12 +117,12 @@ type gate struct {
 	nwait   int
 	started map[int]bool
 	pending chan struct{}
-	w      *world
-	rl     *readline.Shell
-	chunks [][]byte
-	fault  string
-	tr     *Trace
-	faults int
+	w       *world
+	rl      *readline.Shell
+	chunks  [][]byte
+	fault   string
+	tr      *Trace
+	faults  int
 }
 
 func (g *gate) snapshot(kind string) Wait {
@@ -158,6 +159,23 @@ func panicSite() string {
 	}
 }
 
+// callers names the readline functions on the stack, innermost first.
+func callers() string {
+	pcs := make([]uintptr, 40)
+	n := runtime.Callers(2, pcs)
+	fr := runtime.CallersFrames(pcs[:n])
+	var out []string
+	for {
+		f, more := fr.Next()
+		if strings.Contains(f.Function, "reeflective/readline") && !strings.Contains(f.Function, "verifx") {
+			out = append(out, fmt.Sprintf("%s:%d", f.Function[strings.LastIndex(f.Function, "/")+1:], f.Line))
+		}
+		if !more {
+			return strings.Join(out, " < ")
+		}
+	}
+}
+
 func waitKind() string {
 	pcs := make([]uintptr, 40)
 	n := runtime.Callers(2, pcs)
@@ -180,6 +198,7 @@ func (g *gate) Read(p []byte) (int, error) {
 			g.faults++
 			g.tr.Spins = g.faults
 			if g.faults > 64 {
+				g.tr.SpinAt = callers()
 				panic(endOfScript{}) // read-spin: classified by the parent from fault_reads
 			}
 			if g.fault == "eof" {
@@ -429,6 +448,15 @@ func main() {
 	syscall.Dup2(int(s.Fd()), 2)
 	dir, _ := os.MkdirTemp(os.Getenv("RLV_SCRATCH"), "rlv-sess-")
 	defer os.RemoveAll(dir)
+	if f := os.Getenv("RLV_STACKS"); f != "" {
+		// debugging aid: after 5 seconds write every goroutine's stack to the file and exit
+		go func() {
+			time.Sleep(5 * time.Second)
+			buf := make([]byte, 1<<20)
+			os.WriteFile(f, buf[:runtime.Stack(buf, true)], 0o644)
+			os.Exit(3)
+		}()
+	}
 	w := &world{master: m, slave: s, barrier: make(chan int, 16), toGate: make(chan []byte, 16)}
 	w.reset(80, 24)
 	go w.pump()
